@@ -7,7 +7,7 @@ HERE = os.path.dirname(os.path.dirname(os.path.abspath(__file__)))
 CHECKS = {
     "A1": ["C03", "C04", "C05", "C18"], "A2": ["C03", "C04", "C05", "C18"], "A3": ["C01", "C02", "C03", "C13", "C14", "C15"],
     "B1": ["C08", "C07"], "B2": ["C07", "C01", "C18"], "B3": ["C01", "C06", "C07", "C14", "C05", "C08"],
-    "C1": ["C14", "C05", "C18"], "C2": ["C12", "C01"], "C3": ["C10", "C18", "C04"],
+    "C1": ["C14", "C05", "C18"], "C2": ["C12", "C01"], "C3": ["C10", "C18", "C04"], "N1": ["C15", "C03", "C01"],
 }
 BUDGET = os.environ.get("BUDGET", "40")
 ids = sys.argv[1:] or sorted(os.path.basename(os.path.dirname(p)) for p in glob.glob(os.path.join(HERE, "seeded/benign/*/patch.diff")))
